@@ -477,7 +477,7 @@ class Machine:
                 r = v if (r is None or z3.is_true(c)) else s.ite(t, c, v, r)
             if r is None: raise Infeasible('symbolic load with no feasible cell (path condition excludes every cell)')
             return r
-        if s.trace_loads: s.loads.append((p.b, o, n))
+        if s.trace_loads: s.loads.append((p.b, o, n, s.locks_held))
         c = b.cells.get(o)
         if c is not None and c[0] == n:
             v = c[1]
@@ -537,7 +537,7 @@ class Machine:
             return
         sb = s.chk(sp, n); db = s.chk(d, n, True)
         if s.trace_stores: s.stores.append((d.b, d.o, n, s.locks_held))
-        if s.trace_loads: s.loads.append((sp.b, sp.o, n))
+        if s.trace_loads: s.loads.append((sp.b, sp.o, n, s.locks_held))
         if db.kind == 'const': s.ub_now('write-to-const', f'memcpy to constant global {db.tag}')
         cells = [(k - sp.o, c) for k, c in sb.cells.items() if k >= sp.o and k + c[0] <= sp.o + n]
         for k, c in sb.cells.items():
